@@ -183,6 +183,25 @@ def escapes(P, R):
             if e.label == 'case' and e.vs and len(e.vs) == 1 and chr(e.vs[0]) in ESC:
                 st = [s for s in f.block_sites(f.case_body(e.dst)) if s.ev['k'] == 'store' and s.ev.get('op') == '=' and const_of(s.ev.get('rhs')) is not None]
                 found[chr(e.vs[0])] = (st[0] if st else None, const_of(st[0].ev['rhs']) if st else None)
+    # the same table spelled as two parallel strings: `controls[strchr(letters, ch) - letters]`
+    if len(found) < len(ESC):
+        tabs = {}
+        for t in f.sites():
+            if t.ev['k'] == 'decl' and t.ev.get('var') and isinstance(t.ev.get('init'), dict) and t.ev['init'].get('k') == 'str':
+                tabs[t.ev['var']] = (t, t.ev['init']['v'])
+                tabs[t.ev['var'].split('@')[0]] = (t, t.ev['init']['v'])      # folded helpers: `name@helper#id`
+        for t in f.sites():
+            for ex in rules.event_exprs(t.ev):
+                for x in walk(ex):
+                    if isinstance(x, dict) and x.get('k') == 'idx' and is_var(x.get('base')) and x['base']['name'] in tabs:
+                        ix = x.get('index')
+                        if isinstance(ix, dict) and ix.get('k') == 'bin' and ix.get('op') == '-' and is_var(ix.get('l')) and is_var(ix.get('r')) and ix['r']['name'] in tabs:
+                            pv = ix['l']['name']
+                            looked = [d for d in f.local_defs(pv) if any(isinstance(y, dict) and y.get('k') == 'callref' and y.get('callee') == 'strchr' and y['args'] and is_var(y['args'][0]) and y['args'][0]['name'].split('@')[0] == ix['r']['name'].split('@')[0] for y in walk(d.ev.get('rhs') or d.ev.get('init') or {}))]
+                            keys, vals = tabs[ix['r']['name']][1], tabs[x['base']['name']][1]
+                            if looked and len(keys) == len(vals):
+                                for kch, vch in zip(keys, vals):
+                                    found.setdefault(kch, (t, ord(vch)))
     for ch, want in sorted(ESC.items()):
         s, got = found.get(ch, (None, None))
         R.ob('C16.TAB.2', got == want, s or f, 'escape \\%s stores the C control character %d (stores %s)' % (ch, want, got), key='escape:%s' % ch)
@@ -312,7 +331,19 @@ def unknown_chars(P, R):
     for name in ('conf_parse_integer', 'conf_parse_float'):
         f = P.need_fn(name)
         st = [t for t in f.stores() if t.ev['k'] == 'store' and t.ev['lhs'].get('k') == 'un' and t.ev['lhs']['op'] == '*']
-        ok = bool(st) and all('== ' in sx(t.ev['rhs']) and "'\\x00'" in sx(t.ev['rhs']) for t in st)
+        def whole(e, depth=0):
+            # `*end == '\0'` (or `!*end`), directly or through a local that holds just that
+            if is_var(e) and depth < 2:
+                d = f.single_def(e['name'])
+                return bool(d) and whole(d[1], depth + 1)
+            if isinstance(e, dict) and e.get('k') == 'bin' and e.get('op') == '==' and const_of(e.get('r')) == 0:
+                l = e.get('l')
+                return isinstance(l, dict) and ((l.get('k') == 'un' and l.get('op') == '*') or l.get('k') == 'idx')
+            if isinstance(e, dict) and e.get('k') == 'un' and e.get('op') == '!':
+                l = e.get('e')
+                return isinstance(l, dict) and ((l.get('k') == 'un' and l.get('op') == '*') or l.get('k') == 'idx')
+            return False
+        ok = bool(st) and all(whole(t.ev['rhs']) for t in st)
         R.ob('C16.GRD.1', ok, st[0] if st else f, '%s reports success only when the whole text was consumed' % name, key='whole-text:%s' % name, nontrivial=False)
 
 
@@ -676,6 +707,20 @@ def keyword_chains(P, R, rule='C16.TAB.6'):
                 dup = sorted({w for w in words if words.count(w) > 1})
                 n += 1
                 R.ob(rule, not dup, P.relloc(g.get('loc', '?')), 'each of the %d words of table %s occurs once%s' % (len(words), name, (' (twice: %s)' % ', '.join(repr(d) for d in dup)) if dup else ''), key='keyword-once:%s' % name)
+    # ... or in word lists local to a function (`static const char *const true_words[] = { ... }`): a word belongs to
+    # one list of the function only, and occurs once in it
+    for f in P.unit_fns(unit):
+        lists = []
+        for t in f.sites():
+            if t.ev['k'] == 'decl' and isinstance(t.ev.get('init'), dict) and t.ev['init'].get('k') == 'init':
+                ws = [x.get('v') for x in t.ev['init'].get('items', []) if isinstance(x, dict) and x.get('k') == 'str']
+                if len(ws) >= 2 and len(ws) >= len(t.ev['init'].get('items', [])) - 1:
+                    lists.append((t, ws))
+        if sum(len(ws) for _, ws in lists) >= 4:
+            words = [w for _, ws in lists for w in ws]
+            dup = sorted({w for w in words if words.count(w) > 1})
+            n += 1
+            R.ob(rule, not dup, lists[0][0], 'in %s each of the %d words of its word lists (%s) occurs once%s' % (f.name, len(words), ', '.join(t.ev['var'] for t, _ in lists), (' (twice: %s)' % ', '.join(repr(d) for d in dup)) if dup else ''), key='keyword-once:%s' % f.name)
     R.floor(rule, 1, 'keyword chains in the configuration unit')
 
 
